@@ -185,7 +185,7 @@ class KeywordSearches:
             # treating and yielding as if this search were performed directly
             # against each map in the list.
             if Nodes.node_is_aoh(data):
-                for idx, ele in enumerate(data):
+                for idx, ele in enumerate(list(data)):
                     next_path = translated_path + "[{}]".format(str(idx))
                     for aoh_match in KeywordSearches._has_concrete_child(
                         ele, invert, parameters, yaml_path,
@@ -305,7 +305,7 @@ class KeywordSearches:
                         ancestry, relay_segment)
 
         elif Nodes.node_is_aoh(data, accept_nulls=True):
-            for idx, ele in enumerate(data):
+            for idx, ele in enumerate(list(data)):
                 if ele is None:
                     continue
 
